@@ -15,7 +15,7 @@ import (
 	"github.com/google/pprof/verif/internal/parse"
 )
 
-var hostile = []string{`q"r`, `b\`, "n\nl", `<h>`, `a&b`, `{x}`, `p|q`, `s;t`, `\l`, `\N`, `é☃`, `end\"`, `x\\"y`, `"`, `\`, `a" b="c`, `]`, `[x]`, `--`, `->`, "cr\rlf", `<script>alert(1)</script>`, `"><img src=x onerror=alert(1)>`, `</script>`, `'quo'`, `a\nb`, `%s`, "tab\there", `(1) evil`, `fn=(7) x`, "two\n\nlines", `95%`, `50%"`, `%d%v`, `a%`}
+var hostile = []string{`q"r`, `b\`, "n\nl", `<h>`, `a&b`, `{x}`, `p|q`, `s;t`, `\l`, `\N`, `é☃`, `end\"`, `x\\"y`, `"`, `\`, `a" b="c`, `]`, `[x]`, `--`, `->`, "cr\rlf", `<script>alert(1)</script>`, `"><img src=x onerror=alert(1)>`, `</script>`, `'quo'`, `a\nb`, `%s`, "tab\there", `(1) evil`, `fn=(7) x`, `(1)`, `(9)`, `(`, `()`, strings.Repeat("a", 79) + `"`, strings.Repeat("b", 78) + `\"x`, strings.Repeat("c", 80) + `"tail`, strings.Repeat("é", 79) + `"`, strings.Repeat("d", 159) + `"`, "two\n\nlines", `95%`, `50%"`, `%d%v`, `a%`}
 
 var sites = []string{"fn", "sys", "file", "mapfile", "buildid", "comment", "labelkey", "labelval", "numunit", "numkey", "stype", "sunit", "docurl", "mapfile2"}
 
